@@ -83,17 +83,18 @@ def run_main(mutate=None):
             check("C02.refused_only_if_some_site_unsolvable", z3.Or(*[s_ for s_, _ in anys]) if anys else z3.BoolVal(False))
             return
         # answered: the generic site is solvable (D >= 0), i.e. never answered when some site has no solution
-        check("C02.answered_only_if_every_site_solvable", D.e >= 0)
+        fb = lambda: vcm.reveal("z", "w") + sym.congruence_axioms()
+        check("C02.answered_only_if_every_site_solvable", D.e >= 0, fallback_extra=fb)
         psi1, x = res
         if not isinstance(psi1, SC) or not isinstance(x, SR):
             raise sym.Undecided("unexpected result types")
-        check("C02.equation", sym.eq(psi1 + z * x, w))
-        check("C02.modulus", x.e == psi1.abs2().e)
-        check("C02.nonneg", x.e >= 0)
+        check("C02.equation", sym.eq(psi1 + z * x, w), fallback_extra=fb)
+        check("C02.modulus", x.e == psi1.abs2().e, fallback_extra=fb)
+        check("C02.nonneg", x.e >= 0, fallback_extra=fb)
         sD = sym.real_sqrt(D, label="spec.sqrtD")
-        check("C02.branch_root", (x * ((2 * cc + 1) + sD)).e == (2 * w.abs2()).e)
-        check("C02.branch_finite", (2 * z.abs2() * x).e <= (2 * cc + 1).e)
-        check("C02.branch_z0", z3.Implies(z3.And(z.re.e == 0, z.im.e == 0), x.e == w.abs2().e))
+        check("C02.branch_root", (x * ((2 * cc + 1) + sD)).e == (2 * w.abs2()).e, fallback_extra=fb)
+        check("C02.branch_finite", (2 * z.abs2() * x).e <= (2 * cc + 1).e, fallback_extra=fb)
+        check("C02.branch_z0", z3.Implies(z3.And(z.re.e == 0, z.im.e == 0), x.e == w.abs2().e), fallback_extra=fb)
 
     obls, n = explore(body)
     return dict(obls=obls, paths=n, sources=[L.info()], consistent=sym.consistent())
